@@ -5,7 +5,8 @@
    generic in w (any 1 < w <= 64, so in particular 8, 16, 32, 64) and in the signedness. *)
 From Coq Require Import Reals.
 From Flocq Require Import Core IEEE754.BinarySingleNaN IEEE754.Binary IEEE754.Bits.
-From Elk Require Import Base.GoSem Model.C07_Strict Proofs.C07_Strict Model.C07_Float Proofs.C07_Float.
+From Elk Require Import Base.GoSem Model.C07_Strict Proofs.C07_Strict Model.C07_Float Proofs.C07_Float
+  Model.C07_FloatPow Proofs.C07_FloatPow Proofs.C07_FloatPowR.
 Open Scope Z_scope.
 
 (* + - * & | ^ &~ ** : the result is a value of the type and is congruent modulo 2^w to the
@@ -88,8 +89,89 @@ Theorem C07_same_type_shift : forall s w a r, 0 < w -> fits s w a = true -> fits
 Proof. exact same_shift_spec. Qed.
 Print Assumptions C07_same_type_shift.
 
+(* Float / Float64 / Float32 `**`: the table of exceptional cases of IEEE 754-2008 §9.2.1
+   (`pow_special`, generic in the format: prec = 53, emax = 1024 for Float and Float64,
+   24 / 128 for Float32).  Each clause is one group of lines of the standard's list; the
+   last one says the table is total on exceptional operands: it is silent only when both
+   operands are finite and non-zero and (x > 0 or y is an integer) — those pairs are NOT
+   modelled (the harness compares them with Go's math.Pow). *)
+Theorem C07_float_pow_special_table :
+  forall prec emax,
+  let pow := pow_special prec emax in
+  (* pow(x, +-0) = 1 for every x, NaN included *)
+  (forall x s, pow x (Binary.B754_zero _ _ s) = Some ROne) /\
+  (* pow(+1, y) = 1 for every y, NaN included *)
+  (forall x y, is_pos_one prec emax x = true -> pow x y = Some ROne) /\
+  (* otherwise a NaN operand gives NaN *)
+  (forall x y, Binary.is_nan prec emax x = true \/ Binary.is_nan prec emax y = true ->
+     is_pos_one prec emax x = false -> (forall s, y <> Binary.B754_zero _ _ s) -> pow x y = Some RNaN) /\
+  (* pow(+-0, y): y < 0 gives an infinity, y > 0 a zero; negative only for -0 and y an odd integer *)
+  (forall sx y, pow (Binary.B754_zero _ _ sx) y =
+     match y with
+     | Binary.B754_zero _ _ _ => Some ROne
+     | Binary.B754_nan _ _ _ _ _ => Some RNaN
+     | Binary.B754_infinity _ _ sy => Some (if sy then RInf false else RZero false)
+     | Binary.B754_finite _ _ sy m e _ =>
+         Some (if sy then RInf (sx && is_odd_int m e) else RZero (sx && is_odd_int m e))
+     end) /\
+  (* pow(+-inf, y): y < 0 gives a zero, y > 0 an infinity; negative only for -inf and y an odd integer *)
+  (forall sx y, pow (Binary.B754_infinity _ _ sx) y =
+     match y with
+     | Binary.B754_zero _ _ _ => Some ROne
+     | Binary.B754_nan _ _ _ _ _ => Some RNaN
+     | Binary.B754_infinity _ _ sy => Some (if sy then RZero false else RInf false)
+     | Binary.B754_finite _ _ sy m e _ =>
+         Some (if sy then RZero (sx && is_odd_int m e) else RInf (sx && is_odd_int m e))
+     end) /\
+  (* pow(x, +-inf), x finite and non-zero: by |x| against 1; |x| = 1 (so x = -1 too) gives 1 *)
+  (forall s m e pf sy,
+     pow (Binary.B754_finite _ _ s m e pf) (Binary.B754_infinity _ _ sy) =
+     match abs_cmp_one prec emax (Binary.B754_finite _ _ s m e pf) with
+     | Some Lt => Some (if sy then RInf false else RZero false)
+     | Some Gt => Some (if sy then RZero false else RInf false)
+     | _ => Some ROne
+     end) /\
+  (* finite x < 0 and finite non-integer y: NaN *)
+  (forall mx ex px sy my ey py, is_int my ey = false ->
+     pow (Binary.B754_finite _ _ true mx ex px) (Binary.B754_finite _ _ sy my ey py) = Some RNaN) /\
+  (* totality on exceptional operands *)
+  (forall x y, pow x y = None ->
+     exists sx mx ex px sy my ey py,
+       x = Binary.B754_finite _ _ sx mx ex px /\ y = Binary.B754_finite _ _ sy my ey py /\
+       (sx = false \/ is_int my ey = true)).
+Proof.
+  intros prec emax pow. unfold pow.
+  split; [apply pow_exponent_zero|]. split; [apply pow_base_one|]. split; [apply pow_nan|].
+  split; [apply pow_base_zero|]. split; [apply pow_base_inf|]. split; [apply pow_exponent_inf|].
+  split; [apply pow_neg_nonint|apply pow_special_none].
+Qed.
+Print Assumptions C07_float_pow_special_table.
+
+(* what "integer" and "odd integer" mean in that table: m * 2^e is (an odd) integer n *)
+Theorem C07_float_pow_integrality : forall m e,
+  (is_int m e = true <->
+     exists n, (0 <= e -> n = Zpos m * 2 ^ e) /\ (e < 0 -> Zpos m = n * 2 ^ (- e))) /\
+  (is_odd_int m e = true <->
+     exists n, Z.odd n = true /\ (0 <= e -> n = Zpos m * 2 ^ e) /\ (e < 0 -> Zpos m = n * 2 ^ (- e))).
+Proof. intros m e. split; [apply is_int_true|apply is_odd_int_true]. Qed.
+Print Assumptions C07_float_pow_integrality.
+
+(* Float `%` on the aligned integers X = mx * 2^(ex-e), Y = my * 2^(ey-e), e = min ex ey
+   (so x = X * 2^e and |y| = Y * 2^e): the model computes R with X = q*Y + R, |R| < Y,
+   R of the sign of x or zero, and |R| < 2^p whenever the mantissas are (p = 53 or 24):
+   R * 2^e is representable, the remainder is exact. *)
+Theorem C07_float_mod_aligned : forall p mx ex my ey,
+  0 <= p -> Z.abs mx < 2 ^ p -> Zpos my < 2 ^ p ->
+  let e := Z.min ex ey in
+  let X := mx * 2 ^ (ex - e) in
+  let Y := Zpos my * 2 ^ (ey - e) in
+  exists R q, fmod_int mx ex my ey = (R, e) /\
+    X = q * Y + R /\ Z.abs R < Y /\ 0 <= Z.sgn R * Z.sgn mx /\ Z.abs R < 2 ^ p /\ Z.abs R <= Z.abs X.
+Proof. exact fmod_int_spec. Qed.
+Print Assumptions C07_float_mod_aligned.
+
 (* Floats.  The model's operations ARE Flocq's IEEE-754 operations; what Flocq proves about
-   them (one theorem, four clauses): on finite operands without overflow the result of
+   them (ONE theorem for everything that rests on the real-number axioms; first four clauses): on finite operands without overflow the result of
    + - * / is the exact real result rounded ONCE, to nearest-even, into the format of the
    operand type — binary32 for Float32 (no intermediate binary64 rounding), binary64 for
    Float and Float64; comparison of finite values is comparison of the reals; Int -> Float
@@ -105,8 +187,28 @@ Theorem C07_float_ieee :
      R64 (f64_op o x y) = rnd64 (exact o (R64 x) (R64 y)) /\ fin64 (f64_op o x y)) /\
   (forall x y, fin64 x -> fin64 y -> f64_cmp x y = Some (Rcompare (R64 x) (R64 y))) /\
   (forall z, (Rabs (rnd64 (IZR z)) < max64)%R ->
-     R64 (f64_of_int z) = rnd64 (IZR z) /\ fin64 (f64_of_int z)).
-Proof. exact float_ieee. Qed.
+     R64 (f64_of_int z) = rnd64 (IZR z) /\ fin64 (f64_of_int z)) /\
+  (* `%` (any format; Float, Float64: 53 / 1024, Float32: 24 / 128): for finite x and finite
+     non-zero y the result r is finite, x = q*y + r for an integer q, |r| < |y|, r has the
+     sign of x even when it is zero — as real numbers, exactly: no rounding *)
+  (forall prec emax (Hp : Prec_gt_0 prec) (Hm : Prec_lt_emax prec emax) (x y : binary_float prec emax),
+     Binary.is_finite prec emax x = true -> Binary.is_finite_strict prec emax y = true ->
+     exists r q, Bfmod prec emax Hp Hm x y = Some r /\
+       Binary.is_finite prec emax r = true /\ Binary.Bsign prec emax r = Binary.Bsign prec emax x /\
+       (Binary.B2R prec emax x = IZR q * Binary.B2R prec emax y + Binary.B2R prec emax r)%R /\
+       (Rabs (Binary.B2R prec emax r) < Rabs (Binary.B2R prec emax y))%R) /\
+  (* the "|x| against 1" of the `**` table is the comparison of the reals *)
+  (forall prec emax s m e pf,
+     abs_cmp_one prec emax (Binary.B754_finite prec emax s m e pf) =
+     Some (Rcompare (Rabs (Binary.B2R prec emax (Binary.B754_finite prec emax s m e pf))) 1)) /\
+  (* the table's test for x = +1 is exact *)
+  (forall prec emax x, is_pos_one prec emax x = true <->
+     (Binary.is_finite prec emax x = true /\ Binary.B2R prec emax x = 1%R)).
+Proof.
+  destruct float_ieee as (H1 & H2 & H3 & H4).
+  split; [exact H1|]. split; [exact H2|]. split; [exact H3|]. split; [exact H4|].
+  split; [exact Bfmod_correct|]. split; [exact abs_cmp_one_correct|exact is_pos_one_correct].
+Qed.
 Print Assumptions C07_float_ieee.
 
 (* non-vacuity: the hypotheses are satisfiable and the model computes non-trivial things,
@@ -133,4 +235,22 @@ Example C07_float_nonvacuous :
   f64_cmp_bits 9223372036854775808 0 = Some Eq /\
   f64_nan_bits (f64_op_bits FDiv 0 0) = true /\
   f64_of_int_bits (2 ^ 63 - 1) = 4890909195324358656.
+Proof. repeat split; vm_compute; reflexivity. Qed.
+
+Example C07_float_pow_mod_nonvacuous :
+  (* (-0) ** 0.5 = +0 ; (-inf) ** 0.5 = +inf ; NaN ** 0 = 1 ; (-1) ** inf = 1 ; (-0) ** -3 = -inf ;
+     (-8) ** (1/3) = NaN ; 2 ** 3 is not an exceptional case ; (-0f32) ** 0.5f32 = +0 ;
+     5.5 % 2 = 1.5 ; -6 % 3 = -0 ; 1e308 % 1.5e-323 = 1e-323 ; inf % 2 = NaN *)
+  f64_pow_special_bits 9223372036854775808 4602678819172646912 = Some 0 /\
+  f64_pow_special_bits 18442240474082181120 4602678819172646912 = Some 9218868437227405312 /\
+  f64_pow_special_bits 9221120237041090560 0 = Some 4607182418800017408 /\
+  f64_pow_special_bits 13830554455654793216 9218868437227405312 = Some 4607182418800017408 /\
+  f64_pow_special_bits 9223372036854775808 13837309855095848960 = Some 18442240474082181120 /\
+  f64_nan_bits (match f64_pow_special_bits 13844628204490326016 4599676419421066581 with Some b => b | None => 0 end) = true /\
+  f64_pow_special_bits 4611686018427387904 4613937818241073152 = None /\
+  f32_pow_special_bits 2147483648 1056964608 = Some 0 /\
+  f64_mod_bits 4617878467915022336 4611686018427387904 = 4609434218613702656 /\
+  f64_mod_bits 13841813454723219456 4613937818241073152 = 9223372036854775808 /\
+  f64_mod_bits 9214871658872686752 3 = 2 /\
+  f64_nan_bits (f64_mod_bits 9218868437227405312 4611686018427387904) = true.
 Proof. repeat split; vm_compute; reflexivity. Qed.
